@@ -418,6 +418,8 @@ def search(ctx, seeds, full=False):
     fails = []
     # 1. the disagreeing cases first
     region_seeds = [s for s in seeds if s.get('kind') == 'region'][:200]
+    def enough():
+        return len([f for f in fails if not classes_flat(f)]) >= 5
     for s in [s for s in seeds if s.get('kind') in ('insp', 'wrap')][:40]:
         img = img_of_case(s)
         fam = [('seed', G.unpack_sizes(s['sizes']))] + search_family(ctx, img, rng, True)
@@ -425,21 +427,27 @@ def search(ctx, seeds, full=False):
             wrapper_oracle(ctx, img, fam, fails)
         else:
             stream_oracle(ctx, img, fam, rng, fails)
+        if enough():
+            break
     # 2. the capture engine alone, exhaustively
     fails += engine_search(ctx, 8 if ctx.quick else 10, region_seeds)
     # 3. generated streams
     rounds = (2 if full else 1) if ctx.quick else (4 if full else 2)
     for _ in range(rounds):
+        if enough():
+            break
         imgs = image_stream(ctx, rng, for_search=True)
         for img in imgs:
             ctx.count('search/' + img.tag.split('/')[0])
             stream_oracle(ctx, img, search_family(ctx, img, rng, full), rng, fails)
+            if enough():
+                break
         for img in rng.sample(imgs, min(len(imgs), 25 if ctx.quick else 120)) + [i for i in imgs if i.tag.startswith('known/')]:
+            if enough():
+                break
             n = len(img.data)
             fam = G.chunk_family(n, img.bounds, rng, small=(17,) if n <= 40 * G.K else (), nrandom=3)
             wrapper_oracle(ctx, img, fam, fails)
-        if len([f for f in fails if not classes_flat(f)]) >= 5:
-            break
     ctx._c01_failures = fails
     ctx.count('search/failures-in-known-classes', len([f for f in fails if classes_flat(f)]))
     return fails
